@@ -489,6 +489,9 @@ def run(ck):
         'attached leftovers and the Reject errors. R4.3 every name excluded from make_serializable_map/make_value_map has a handler '
         '(a call taking the same literal) in uigen. R4.4 generate_ui_file: writes dominated by the syntax-error return and by the '
         '`Some(x) if !diagnostics.has_error()` arm; all other arms return Err; generate_ui propagates each error with `?`.')
+    ck.explanation += (' R4.1u also reads results that are matched together (`match (get(a), get(b))`): in every arm, or-alternatives expanded, each component is None, bound and '
+                       'used, decided by a literal, or the arm pushes an error. R4.7 the presence test that guards an attribute looks at the very field (or bound value) the '
+                       'attribute is made of.')
     ck.rule('R4.1', 'None from a builder is diagnosed, deferred by design, or a reviewed nothing-to-diagnose source')
     ck.rule('R4.1u', 'a value obtained by evaluating bindings is consumed on every path')
     ck.rule('R4.1c', 'signal callbacks found by the binding scan are never discarded')
